@@ -744,19 +744,33 @@ func rowsForReplay(t *table) [][]string {
 
 // ---------- stream dia: an updated file keeps its dialect ----------
 
-var diaFormats = []option.Format{option.CSV, option.CSV, option.TSV, option.LTSV}
+var diaFormats = []option.Format{option.CSV, option.CSV, option.TSV, option.TSV, option.LTSV, option.FIXED, option.JSON, option.JSONL}
+
+// sessionOpposite: the processor that updates the file has every export setting set to the OPPOSITE of
+// the file's dialect (what FileInfo.ExportOptions must override), instead of the defaults
+var sessionOpposite bool
 
 func diaCase(g *hc.Gen, o *hc.Out, dir string) {
 	f := diaFormats[g.Intn(len(diaFormats))]
 	d := genOpts(g, f)
 	d.allowUneven = false
 	d.enc = []text.Encoding{text.UTF8, text.UTF8, text.UTF8M, text.UTF16BEM, text.UTF16LEM, text.SJIS}[g.Intn(6)]
+	if f == option.JSON || f == option.JSONL {
+		d.enc = text.UTF8
+		d.pretty = false // FileInfo.PrettyPrint is not detected on load: a pretty file is rewritten compact
+	}
+	if f == option.FIXED && utf16Family(d.enc) {
+		d.enc = text.UTF8 // F16 utf16_padding
+	}
+	if f == option.JSONL && d.lb == text.CR {
+		d.lb = text.CRLF // F24 jsonl cr_line_break
+	}
 	// a table every format round-trips: >= 2 columns, >= 2 rows, plain texts without line breaks or colons
 	nc, nr := 2+g.Intn(3), 2+g.Intn(4)
 	t := &table{header: genHeader(g, nc, risk{}, true), rows: make([][]cell, nr)}
 	words := []string{"a", "bc", "x y", "Q", "日本", "12", "v-1", "k"}
 	if f != option.LTSV {
-		words = append(words, "a,b", "q\"r", "s;t", "u|v")
+		words = append(words, "a,b", "q\"r", "s;t", "u|v", "")
 	}
 	for i := range t.rows {
 		t.rows[i] = make([]cell, nc)
@@ -776,12 +790,54 @@ func diaCase(g *hc.Gen, o *hc.Out, dir string) {
 	if d.enc != text.SJIS && g.Intn(2) == 0 {
 		importEnc = text.AUTO
 	}
+	if f == option.FIXED {
+		u := t.clone()
+		u.rows = append(u.rows, append([]cell(nil), u.rows[1]...))
+		u.rows[len(u.rows)-1][1] = mkCell(value.NewString("NEW"))
+		d.positions = writerPositionsPlain(u, d)
+	}
+	if (f == option.JSON || f == option.JSONL) && !jsonLineBreakChecked {
+		d.lb = text.LF // the session default, see jsonLineBreakChecked
+	}
+	sessionOpposite = g.Intn(2) == 0
 	diaRun(o, dir, t, d, withEnd, importEnc, "")
+	sessionOpposite = false
 }
 
 // diaRun: write the file with dialect d (the real encoder, the ending line break in d's own line
 // break and encoding), UPDATE + COMMIT it through a processor with DEFAULT export settings, and
 // compare the bytes with what the same dialect would write for the updated table
+// jsonLineBreakChecked: the JSON and JSON Lines loaders do not detect the line break of the file, so an
+// updated CRLF file is rewritten with the session's line break (reported to the coordinator as a new
+// finding: laws dialect:jsonl:line_break, dialect:json:ending_line_break_kind).  While it is not
+// recorded the dialect runs keep the session's line break equal to the file's for these two formats;
+// set to true to check it.
+const jsonLineBreakChecked = false
+
+// setOppositeSession: every attribute FileInfo.ExportOptions carries, set to something else than the file has
+func setOppositeSession(p *hc.Proc, d opts) {
+	tx := p.P.Tx
+	pick := func(cond bool, a, b string) string {
+		if cond {
+			return a
+		}
+		return b
+	}
+	must(tx.SetFlag(option.FormatFlag, pick(d.format == option.CSV, "JSON", "CSV")))
+	must(tx.SetFlag(option.ExportDelimiterFlag, pick(d.delim == '|', ";", "|")))
+	if (d.format == option.JSON || d.format == option.JSONL) && !jsonLineBreakChecked {
+		must(tx.SetFlag(option.LineBreakFlag, lbName(d.lb)))
+	} else {
+		must(tx.SetFlag(option.LineBreakFlag, pick(d.lb == text.LF, "CRLF", "LF")))
+	}
+	must(tx.SetFlag(option.EncloseAllFlag, !d.encloseAll))
+	must(tx.SetFlag(option.WithoutHeaderFlag, !d.withoutHeader))
+	must(tx.SetFlag(option.ExportEncodingFlag, pick(d.enc == text.UTF8, "UTF16", "UTF8")))
+	must(tx.SetFlag(option.JsonEscapeFlag, pick(d.jsonEscape == txjson.Backslash, "HEXALL", "BACKSLASH")))
+	must(tx.SetFlag(option.PrettyPrintFlag, !d.pretty))
+	must(tx.SetFlag(option.ExportDelimiterPositionsFlag, pick(d.positions == nil, "[2, 5, 9]", "SPACES")))
+}
+
 func diaRun(o *hc.Out, dir string, t *table, d opts, withEnd bool, importEnc text.Encoding, tag string) {
 	f := d.format
 	name := fmtName(f)
@@ -804,16 +860,19 @@ func diaRun(o *hc.Out, dir string, t *table, d opts, withEnd bool, importEnc tex
 	// the update, by a processor with DEFAULT export settings
 	key := "c1"
 	upd := "c2"
-	if !d.withoutHeader || f == option.LTSV {
+	if headerWritten(d) {
 		key, upd = t.header[0], t.header[1]
 	}
 	p := importProc(dir, d, importEnc)
 	_ = p.P.Tx.SetFlag(option.QuietFlag, true)
+	if sessionOpposite {
+		setOppositeSession(p, d)
+	}
 	_, uerr := p.Exec(fmt.Sprintf("UPDATE %s SET %s = 'NEW' WHERE %s = 'r1'; COMMIT;", option.QuoteIdentifier(fname), option.QuoteIdentifier(upd), option.QuoteIdentifier(key)))
 	p.Close()
 	o.Count("dia:" + name + ":" + encName(d.enc) + ":" + lbName(d.lb))
 	replay := func(extra map[string]interface{}) map[string]interface{} {
-		m := map[string]interface{}{"format": name, "dialect": d.sig(), "import_encoding": encName(importEnc), "original_hex": hex.EncodeToString(orig)}
+		m := map[string]interface{}{"format": name, "dialect": d.sig(), "import_encoding": encName(importEnc), "original_hex": hex.EncodeToString(orig), "session_settings_opposite": sessionOpposite}
 		if tag != "" {
 			m["corpus"] = tag
 		}
@@ -875,6 +934,8 @@ func diaRun(o *hc.Out, dir string, t *table, d opts, withEnd bool, importEnc tex
 				what = "table"
 			case (f == option.CSV || f == option.TSV) && v.FileInfo.EncloseAll != d.encloseAll:
 				what = "enclose_all"
+			case (f == option.JSON || f == option.JSONL) && v.FileInfo.JsonEscape != d.jsonEscape:
+				what = "json_escape"
 			}
 		}
 		if what == "enclose_all" && !d.encloseAll {
@@ -911,25 +972,31 @@ func main() {
 		corpus(o, scratch)
 		refuseMatrix(o, scratch)
 		for i := 0; i < n; i++ {
-			switch k := i % 10; {
-			case i%20 == 19:
-				bigCase(g, o, scratch)
-			case i%20 == 9:
-				refuseCase(g, o, scratch)
-			case k == 2:
-				jencCase(g, o)
-			case k == 5:
-				jdecCase(g, o, scratch)
-			case k == 8:
-				jescCase(g, o)
-			case k < 3:
+			switch i % 20 {
+			case 0, 1, 2:
 				encCase(g, o)
-			case k < 6:
+			case 3, 17:
+				jencCase(g, o)
+			case 4, 5, 6, 18:
 				decCase(g, o, scratch)
-			case k < 9:
+			case 7:
+				jdecCase(g, o, scratch)
+			case 8, 9, 10, 16:
 				rtCase(g, o, scratch)
-			default:
+			case 11:
+				jescCase(g, o)
+			case 12, 13:
 				diaCase(g, o, scratch)
+			case 14:
+				refuseCase(g, o, scratch)
+			case 15:
+				bigCase(g, o, scratch)
+			default: // 19
+				if (i/20)%8 == 0 {
+					historyCase(g, o, scratch)
+				} else {
+					jdecCase(g, o, scratch)
+				}
 			}
 		}
 	})
